@@ -54,7 +54,7 @@ structure GFact (c : Core) : Prop where
   b2v : ∀ i, i < c.sent.length → c.sent.length ≤ i + c.cap → (c.sent.length = i + c.cap → c.dirty = false) →
           c.val (i % c.cap) = c.sent.getD i 0
   b2e : ∀ j, j < c.cap → c.sent.length ≤ j → c.seq j = 2 * j
-  b2r : ∀ j i, j < c.cap → c.seq j = 2 * i + 1 → i < c.sent.length
+  b2r : ∀ j i, j < c.cap → c.seq j = 2 * i + 1 → i < c.sent.length ∧ c.sent.length ≤ i + c.cap ∧ i % c.cap = j
   got_ok : ∀ r, c.c0 r ≤ c.cur r ∧ c.got r = (c.sent.drop (c.c0 r)).take (c.cur r - c.c0 r)
   cells : ∀ i r, r ∈ c.data i → r < c.nextCell
   alive_lt : ∀ r, c.rAlive r = true → r < c.nextCell
